@@ -309,9 +309,24 @@ class CasadiToSympy(Job):
         ok = len({s.name for s in a.free_symbols | b.free_symbols}) == 2 and (a.free_symbols & b.free_symbols) == {sympy.Symbol("x")}
         R.append(Result(self.id, "casadi_to_sympy: one SymPy symbol per CasADi symbol across calls sharing the table", PROVED if ok else REFUTED, "EVAL", "", 0.0,
                         f"table {syms}", None if ok else {"inputs": {}}, 1))
-        m = symbolic.casadi_to_sympy(ca.vertcat(ca.horzcat(x, y), ca.horzcat(x * y, 2)))
-        ok = m.shape == (2, 2) and m[1, 0] == sympy.Symbol("x") * sympy.Symbol("y") and m[0, 1] == sympy.Symbol("y")
-        R.append(Result(self.id, "casadi_to_sympy: matrices are converted entry by entry in place", PROVED if ok else REFUTED, "EVAL", "", 0.0, str(m), None if ok else {"inputs": {}}, 1))
+        for shape in ((2, 2), (3, 2), (2, 3), (1, 3), (3, 1)):
+            name = f"casadi_to_sympy: [bounded: shape {shape}] matrix converted entry by entry in place"
+            try:
+                Mx = ca.SX.zeros(*shape)
+                for i in range(shape[0]):
+                    for j in range(shape[1]):
+                        Mx[i, j] = (i + 1) * x + (j + 2) * y + (3 * i + j) * x * y
+                m = symbolic.casadi_to_sympy(Mx)
+                ok = tuple(m.shape) == shape
+                goals = []
+                if ok:
+                    sem = sx_sem(Mx, {"x": x, "y": y})
+                    goals = [sym_sem(m[i, j], env) == sem[i][j] for i in range(shape[0]) for j in range(shape[1])]
+                    R.append(self.prove(name, [], z3.And(goals), lambda model, shape=shape: {"inputs": {"shape": list(shape)}}))
+                else:
+                    R.append(Result(self.id, name, REFUTED, "EVAL", "", 0.0, f"shape {m.shape}", {"inputs": {"shape": list(shape)}}, 1))
+            except Exception as ex:
+                R.append(Result(self.id, name, REFUTED, "TRACE", "", 0.0, f"converter raised {type(ex).__name__}: {ex}", {"inputs": {"shape": list(shape)}}, 1))
         return R
 
 
@@ -398,6 +413,20 @@ class SympyToCasadi(Job):
         R.append(Result(self.id, "sympy_to_casadi(cse=True): no temporary symbol leaks into the table", PROVED if okc else REFUTED, "EVAL", "", 0.0, f"table {sorted(syms)}",
                         None if okc else {"inputs": {}}, 1))
         R.append(self.prove("sympy_to_casadi(cse=True): result keeps the meaning of the expression", [], sem == sym_sem(big, env)))
+        # chained common sub-expressions (a later definition refers to an earlier one)
+        chained = sympy.sin(xs + ys) ** 2 + (xs + ys) * sympy.cos(sympy.sin(xs + ys) ** 2) + sympy.sin(xs + ys) ** 2 * (xs + ys)
+        try:
+            syms2 = {}
+            c2, _ = symbolic.sympy_to_casadi(chained, symbols=syms2, cse=True)
+            free = [v.name() for v in ca.symvar(ca.SX(c2))]
+            okf = sorted(free) == ["x", "y"] and sorted(syms2) == ["x", "y"]
+            R.append(Result(self.id, "sympy_to_casadi(cse=True, chained sub-expressions): result depends only on the expression's own symbols", PROVED if okf else REFUTED,
+                            "EVAL", "", 0.0, f"free variables {free}, table {sorted(syms2)}", None if okf else {"inputs": {"expr": str(chained)}}, 1))
+            if okf:
+                sem2 = sx_sem(ca.SX(c2), {k: syms2[k] for k in ("x", "y")})[0][0]
+                R.append(self.prove("sympy_to_casadi(cse=True, chained sub-expressions): result keeps the meaning", [], sem2 == sym_sem(chained, env)))
+        except Exception as ex:
+            R.append(Result(self.id, "sympy_to_casadi(cse=True, chained sub-expressions)", REFUTED, "TRACE", "", 0.0, f"{type(ex).__name__}: {ex}", {"inputs": {}}, 1))
         # constructs the converter cannot represent must raise
         for label, expr in (("exp", sympy.exp(xs)), ("Abs", sympy.Abs(xs)), ("Piecewise", sympy.Piecewise((xs, xs > 0), (0, True))), ("relational", xs < ys),
                             ("Max", sympy.Max(xs, ys)), ("Mod", sympy.Mod(xs, ys)), ("unknown function", sympy.Function("g")(xs))):
